@@ -312,7 +312,7 @@ func TestVerifC05Native(t *testing.T) {
 	rawTags := []string{"v,range=[5:1]", "v,range=5", "v,range=[a:b]", "v,range=[1:b]", "v,range=[1:2", "v,range=1:2]", "v,range={1:2}", "v,range=[:]", "v,range=", "v,range=[", "v,range=(2:2)", "v,range=[2:2)", "v,range=(2:2]",
 		"v,range=[3:3]", "v,range=[1:2:3]", "v,range=[1]", "v,range", "v,range=[1:5]=x", "v,optional=a=b", "v,optional=!", "v,optional=", "v,optional=other", "v,optional=!other", "v,optionalx", "v,options", "v,options=", "v,options=1=2",
 		"v,options=3", "v,options=[3,4]", "v,options=3|4", "v,default", "v,default=", "v,default=1=2", "v,default=3", "v,env", "v,env=", "v,env=A=B", "v,unknownoption", ",optional", "v,optional,", "v, optional , default=3", " v ,optional",
-		"v,optional,optional", "v,string,string", "v,inherit", "v,optional,range=[1:5],options=3|9,default=3", "v,range=[1:5],range=[7:9]", "v,\\,optional", "v,options=[3\\,4]"}
+		"v,optional,optional", "v,string,string", "v,inherit", "v,optional,range=[1:5],options=3|9,default=3", "v,range=[1:5],range=[7:9]", " ", "  ", "\t", " ,optional", ",", ",,", " , ", "v,\\,optional", "v,options=[3\\,4]"}
 	for _, raw := range rawTags {
 		raw := raw
 		for _, nested := range []bool{false, true} {
@@ -510,6 +510,97 @@ func TestVerifC05Native(t *testing.T) {
 			return nil
 		}, func() string { return msg })
 	}
+
+	// ---- one default text, several element kinds, both orders of first use (the parsed default is memoised per process)
+	type dBool1 struct {
+		V []bool `json:"v,default=[true,false]"`
+	}
+	type dStr1 struct {
+		V []string `json:"v,default=[true,false]"`
+	}
+	type dStr2 struct {
+		V []string `json:"v,default=[false,true,true]"`
+	}
+	type dBool2 struct {
+		V []bool `json:"v,default=[false,true,true]"`
+	}
+	type dNum1 struct {
+		V []float64 `json:"v,default=[1.50,2,1e3]"`
+	}
+	type dNumS struct {
+		V []string `json:"v,default=[1.50,2,1e3]"`
+	}
+	type dNumI struct {
+		V []int `json:"v,default=[7,08,9]"` // 08 is not JSON; as []string it is fine
+	}
+	type dNumIS struct {
+		V []string `json:"v,default=[7,08,9]"`
+	}
+	var msgOrder string
+	add("default-text-shared-by-kinds", "[]bool first, then []string with the same default text", "ok", func() error {
+		msgOrder = ""
+		var b dBool1
+		var s1 dStr1
+		if err := UnmarshalJsonBytes([]byte(`{}`), &b); err != nil {
+			return err
+		}
+		if err := UnmarshalJsonBytes([]byte(`{}`), &s1); err != nil {
+			return fmt.Errorf("[]string default=[true,false] after a []bool with the same default text: %w", err)
+		}
+		if !reflect.DeepEqual(b.V, []bool{true, false}) || !reflect.DeepEqual(s1.V, []string{"true", "false"}) {
+			msgOrder = fmt.Sprintf("bool=%v string=%v", b.V, s1.V)
+		}
+		return nil
+	}, func() string { return msgOrder })
+	add("default-text-shared-by-kinds", "[]string first, then []bool with the same default text", "ok", func() error {
+		msgOrder = ""
+		var s2 dStr2
+		var b dBool2
+		if err := UnmarshalJsonBytes([]byte(`{}`), &s2); err != nil {
+			return err
+		}
+		if err := UnmarshalJsonBytes([]byte(`{}`), &b); err != nil {
+			return fmt.Errorf("[]bool default=[false,true,true] after a []string with the same default text: %w", err)
+		}
+		if !reflect.DeepEqual(b.V, []bool{false, true, true}) || !reflect.DeepEqual(s2.V, []string{"false", "true", "true"}) {
+			msgOrder = fmt.Sprintf("bool=%v string=%v", b.V, s2.V)
+		}
+		return nil
+	}, func() string { return msgOrder })
+	add("default-text-shared-by-kinds", "[]float64 first, then []string with the same default text", "ok", func() error {
+		msgOrder = ""
+		var f dNum1
+		var s3 dNumS
+		if err := UnmarshalJsonBytes([]byte(`{}`), &f); err != nil {
+			return err
+		}
+		if err := UnmarshalJsonBytes([]byte(`{}`), &s3); err != nil {
+			return err
+		}
+		if !reflect.DeepEqual(f.V, []float64{1.5, 2, 1000}) || !reflect.DeepEqual(s3.V, []string{"1.50", "2", "1e3"}) {
+			msgOrder = fmt.Sprintf("float=%v string=%q", f.V, s3.V)
+		}
+		return nil
+	}, func() string { return msgOrder })
+	add("default-text-shared-by-kinds", "[]string first with a text that is no JSON, then []int", "free", func() error {
+		msgOrder = ""
+		var s4 dNumIS
+		var i4 dNumI
+		if err := UnmarshalJsonBytes([]byte(`{}`), &s4); err != nil {
+			return err
+		}
+		if !reflect.DeepEqual(s4.V, []string{"7", "08", "9"}) {
+			msgOrder = fmt.Sprintf("string=%q", s4.V)
+			return nil
+		}
+		if err := UnmarshalJsonBytes([]byte(`{}`), &i4); err != nil {
+			return err // 08 is not a JSON number: refusing is fine
+		}
+		if !reflect.DeepEqual(i4.V, []int{7, 8, 9}) {
+			msgOrder = fmt.Sprintf("int=%v", i4.V)
+		}
+		return nil
+	}, func() string { return msgOrder })
 
 	// ---- an absent non-optional map member: whether it is refused is not asserted; when it is accepted the
 	// result holds its own empty map - writing into it must not change any later result
